@@ -1685,3 +1685,56 @@ K("zzk-if-else-to-conditional-expressions", _if_assign_to_ifexp,
   note="two-armed assignments and guard returns as conditional expressions")
 K("zzk-de-morgan-nested-ifs", _de_morgan_and_split,
   note="De Morgan, `if a and b` as nested ifs, chained comparisons split")
+
+
+def _positional_to_keyword(texts):
+    """Calls of module-level functions of the package (unique names, plain
+    positional parameters) pass their arguments by keyword; calls of
+    `_bounds_checker` pass min_val positionally."""
+    import ast as _ast
+    sigs = {}
+    counts = {}
+    for name, text in texts.items():
+        tree = _ast.parse(text)
+        for n in _ast.walk(tree):
+            if isinstance(n, _ast.FunctionDef):
+                counts[n.name] = counts.get(n.name, 0) + 1
+        for st in tree.body:
+            if isinstance(st, _ast.FunctionDef):
+                a = st.args
+                if a.vararg or a.kwarg or a.posonlyargs:
+                    continue
+                sigs[st.name] = [x.arg for x in a.args]
+    sigs = {k: v for k, v in sigs.items() if counts.get(k) == 1 and
+            not k.startswith("__")}
+
+    class T(_ast.NodeTransformer):
+        def visit_Call(self, node):
+            self.generic_visit(node)
+            fn = node.func
+            nm = fn.id if isinstance(fn, _ast.Name) else None
+            if nm == "_bounds_checker":
+                kws = {k.arg: k for k in node.keywords}
+                if len(node.args) == 2 and "min_val" in kws:
+                    node.args.append(kws["min_val"].value)
+                    node.keywords = [k for k in node.keywords
+                                     if k.arg != "min_val"]
+                return node
+            if nm in sigs and node.args and not any(
+                    isinstance(a, _ast.Starred) for a in node.args) and \
+                    len(node.args) <= len(sigs[nm]) and not any(
+                        k.arg is None for k in node.keywords):
+                params = sigs[nm]
+                new_kw = [_ast.keyword(arg=p, value=a)
+                          for p, a in zip(params, node.args)]
+                node.keywords = new_kw + node.keywords
+                node.args = []
+            return node
+
+    def tr(name, tree):
+        return T().visit(tree)
+    return _each_module(texts, tr)
+
+
+K("zzk-positional-to-keyword-arguments", _positional_to_keyword,
+  note="package functions called by keyword; _bounds_checker min positional")
